@@ -27,7 +27,10 @@ D1 == {OneUnder(kw, Leaf(1)) : kw \in AllKW}
 D2 == {OneUnder(k1, OneUnder(k2, Leaf(1))) : k1 \in AllKW, k2 \in AllKW}
 Wide == {[kw \in AllKW \ {"itemsArray", "definitions"} |-> OneUnder(kw, Leaf(1))[kw]],
          [kw \in AllKW \ {"items", "defs"} |-> OneUnder(kw, OneUnder("not", Leaf(2)))[kw]]}
-Empties == {[allOf |-> <<>>, properties |-> EmptyFcn, prefixItems |-> <<>>, defs |-> EmptyFcn], Leaf(0), TrueS}
+Empties == {[allOf |-> <<>>, properties |-> EmptyFcn, prefixItems |-> <<>>, defs |-> EmptyFcn], Leaf(0), TrueS,
+            [anyOf |-> <<>>], [oneOf |-> <<>>], [itemsArray |-> <<>>], [properties |-> [a |-> [anyOf |-> <<>>, oneOf |-> <<>>]]],
+            [items |-> [itemsArray |-> <<>>, patternProperties |-> EmptyFcn, dependentSchemas |-> EmptyFcn]],
+            [allOf |-> <<[prefixItems |-> <<>>, depSchemas |-> EmptyFcn, definitions |-> EmptyFcn]>>]}
 D3 == {OneUnder(k1, OneUnder(k2, OneUnder(k3, Leaf(1)))) : k1 \in {"items", "allOf", "properties", "not"}, k2 \in AllKW, k3 \in {"if", "oneOf", "depSchemas", "defs"}}
 Trees == IF K >= 2 THEN UNION {D1, D2, Wide, Empties, D3} ELSE UNION {D1, D2, Wide, Empties}
 
